@@ -26,9 +26,17 @@ def _amt_plus_one(r, k, recs):
 
 
 def _deadline_plus_one(r, k, recs):
+    # a run in which the node failed the set back on its own when the advertised deadline was reached
     if r["ev"] == "event" and r.get("kind") == "PaymentClaimable":
-        r["deadline"] += 1
-        return [r]
+        later = [x for x in recs[k + 1:] if x["run"] == r["run"]]
+        for j, x in enumerate(later):
+            if x["ev"] in ("claim", "failback") or (x["ev"] == "event" and x.get("kind") == "PaymentClaimable"):
+                return None
+            if x["ev"] == "block" and x["height"] == r["deadline"]:
+                if any(y["ev"] == "msg" and y["kind"] == "update_fail_htlc" and y["from"] == r["node"] for y in later[j:]):
+                    r["deadline"] += 1
+                    return [r]
+                return None
 
 
 def _fulfil_as_fail(r, k, recs):
